@@ -158,4 +158,32 @@ example : ∃ ps, wrapRoot ⟨"  ".toList, false⟩ 12 [("", "")]
     (.tag "" "p" [] [.text "Hold ".toList, .tag "" "hi" [] [.text "the".toList], .text " thieves, now!".toList]) = .ok ps :=
   c03_wrapped_total_of_prefixes _ _ _ _ rfl (by decide)
 
+/-! ## totality of the whole call
+
+`c03_serialize_wrapped_total` assumes that prefix collection returned a map; under the size bound of
+`c13_collect_total` (distinct namespaces of the tree plus entries of the caller's mapping at most
+`65536 + 2`) it always does. -/
+
+/-- **`serialize(format_options=…)` yields an output**, for every width (`0`: the pretty serializer),
+    every tag node, all format options, every accepted caller mapping and every iteration order of the
+    namespace sets -/
+theorem c03_serialize_wrapped_total' (o : Opts) (width : Nat) (nsmap : Dict)
+    (hn : NsMapOk nsmap) (root : Node) (htag : root.isTag = true)
+    (orders : List (List String)) (ho : ordersValid root orders = true)
+    (hsmall : (Ser.dedup (treeNamespaces root)).length + nsmap.length ≤ 65538) :
+    ∃ out, serializeWrapped o width nsmap root orders = .ok out := by
+  obtain ⟨m, hm, hok⟩ := c13_collect_total_ok nsmap hn root orders ho hsmall
+  by_cases h0 : width = 0
+  · subst h0
+    obtain ⟨out, hout⟩ := prettyRoot_total o m root htag hok.total
+    exact ⟨out, by simp [serializeWrapped, hm, hout]⟩
+  · exact c03_serialize_wrapped_total o width (by omega) nsmap hn root htag orders ho m hm
+
+/-! non-vacuity: two namespaces, the text wrapped -/
+example : ∃ out, serializeWrapped ⟨"  ".toList, false⟩ 12
+    [("xml", Gen.xmlNamespace), ("xmlns", Gen.xmlnsNamespace)]
+    (.tag "urn:a" "p" [] [.text "Hold ".toList, .tag "urn:b" "hi" [] [.text "the".toList], .text " thieves, now!".toList])
+    [["urn:a"], ["urn:b"]] = .ok out :=
+  c03_serialize_wrapped_total' _ _ _ ⟨by decide, by decide, by decide, by decide⟩ _ rfl _ (by decide) (by decide)
+
 end Delb.Wrapping
